@@ -7,18 +7,20 @@ From AV Require Import Base.Prelude Model.Match Model.Options Proofs.MatchProofs
 (* code points with a meaning for the tokenizer: backslash, double quote, blank, tab, comma *)
 Definition plain (c : Z) : Prop := c <> 92 /\ c <> 34 /\ c <> 32 /\ c <> 9 /\ c <> 44.
 
-(* the tokenizer's own escaping: a backslash in front of every backslash and double quote *)
-Fixpoint escape (v : text) : text :=
-  match v with
-  | [] => []
-  | c :: r => if (c =? 92) || (c =? 34) then 92 :: c :: escape r else c :: escape r
-  end.
-
-(* OpenSSH's documented escaping: only the double quote is escaped *)
+(* OpenSSH's documented escaping: only the double quote is escaped, by a backslash *)
 Fixpoint ossh_escape (v : text) : text :=
   match v with
   | [] => []
   | c :: r => if c =? 34 then 92 :: c :: ossh_escape r else c :: ossh_escape r
+  end.
+
+(* values in which every backslash is followed by something other than a double quote (in
+   particular the value does not end in a backslash) *)
+Fixpoint safe (v : text) : bool :=
+  match v with
+  | [] => true
+  | c :: r => if c =? 92 then match r with [] => false | d :: _ => negb (d =? 34) && safe r end
+              else safe r
   end.
 
 Definition print_opt (esc : text -> text) (nv : text * text) : text :=
@@ -31,121 +33,129 @@ Fixpoint print_opts (esc : text -> text) (l : list (text * text)) : text :=
   | o :: r => print_opt esc o ++ 44 :: print_opts esc r
   end.
 
-(* what _add_option receives for name="value" *)
+(* what _add_option receives for a quoted name=value *)
 Definition raw_opt (nv : text * text) : text := fst nv ++ 61 :: snd nv.
 
 Lemma tok_plain n : Forall plain n -> forall s cur acc last,
   exists last', tok (n ++ s) false false cur acc last = tok s false false (rev n ++ cur) acc last'.
 Proof.
-  induction 1 as [|c n (H92 & H34 & H32 & H9 & H44) _ IH]; intros s cur acc last.
+  unfold tok. induction 1 as [|c n (H92 & H34 & H32 & H9 & H44) _ IH]; intros s cur acc last.
   - exists last. reflexivity.
-  - cbn [app tok]. apply Z.eqb_neq in H92, H34, H32, H9, H44.
+  - cbn [app tok_gen]. apply Z.eqb_neq in H92, H34, H32, H9, H44.
     rewrite H92, H34, H32, H9, H44. cbn [orb].
     destruct (IH s (c :: cur) acc [c]) as [l' ->]. exists l'.
     cbn [rev]. rewrite <- app_assoc. reflexivity.
 Qed.
 
-Lemma tok_quoted v : forall s cur acc last,
-  exists last', tok (escape v ++ 34 :: s) true false cur acc last = tok s false false (rev v ++ cur) acc last'.
+Lemma safe_tail d r : safe (d :: r) = true -> safe r = true.
 Proof.
-  induction v as [|c v IH]; intros s cur acc last.
-  - exists [34]. reflexivity.
-  - cbn [escape]. destruct (Z.eqb_spec c 92) as [->|H92]; cbn [orb].
-    + cbn [app tok]. change (92 =? 92) with true. cbn [orb].
-      destruct (IH s (92 :: cur) acc [92]) as [l' ->]. exists l'. cbn [rev]. rewrite <- app_assoc. reflexivity.
-    + destruct (Z.eqb_spec c 34) as [->|H34].
-      * cbn [app tok]. change (92 =? 92) with true.
-        destruct (IH s (34 :: cur) acc [34]) as [l' ->]. exists l'. cbn [rev]. rewrite <- app_assoc. reflexivity.
-      * cbn [app tok]. apply Z.eqb_neq in H92, H34. rewrite H92, H34.
-        destruct (IH s (c :: cur) acc [c]) as [l' ->]. exists l'. cbn [rev]. rewrite <- app_assoc. reflexivity.
+  cbn [safe]. destruct (d =? 92); [|auto].
+  destruct r as [|e r']; [discriminate|]. intros H. apply andb_true_iff in H as [_ H]. exact H.
 Qed.
 
-Lemma tok_one_opt n v : Forall plain n -> forall s cur acc last,
-  exists last', tok (print_opt escape (n, v) ++ s) false false cur acc last =
+Lemma tok_quoted_safe n : forall v, (length v <= n)%nat -> safe v = true -> forall s cur acc last,
+  exists last', tok (ossh_escape v ++ 34 :: s) true false cur acc last = tok s false false (rev v ++ cur) acc last'.
+Proof.
+  unfold tok. induction n as [|n IH]; intros v Hl Hs s cur acc last.
+  - destruct v; [|simpl in Hl; lia]. exists [34]. reflexivity.
+  - destruct v as [|c r]; [exists [34]; reflexivity|]. simpl in Hl.
+    destruct (Z.eqb_spec c 34) as [->|H34].
+    + (* an escaped double quote *)
+      change (ossh_escape (34 :: r)) with (92 :: 34 :: ossh_escape r). cbn [app tok_gen].
+      change (92 =? 92) with true. change (34 =? 34) with true. cbn [negb andb].
+      destruct (IH r ltac:(lia) (safe_tail _ _ Hs) s (34 :: cur) acc [34]) as [l' ->]. exists l'.
+      cbn [rev]. rewrite <- app_assoc. reflexivity.
+    + destruct (Z.eqb_spec c 92) as [->|H92].
+      * (* a backslash: followed by d <> 34, both are kept *)
+        cbn [safe] in Hs. change (92 =? 92) with true in Hs. cbv iota in Hs.
+        destruct r as [|d r']; [discriminate|].
+        apply andb_true_iff in Hs as [Hd Hs]. apply negb_true_iff in Hd.
+        cbn [ossh_escape]. change (92 =? 34) with false. cbv iota. rewrite Hd.
+        cbn [app tok_gen]. change (92 =? 92) with true. rewrite Hd. cbn [negb andb].
+        simpl in Hl.
+        destruct (IH r' ltac:(lia) (safe_tail _ _ Hs) s (d :: 92 :: cur) acc [d]) as [l' ->]. exists l'.
+        cbn [rev]. rewrite <- !app_assoc. reflexivity.
+      * cbn [ossh_escape]. apply Z.eqb_neq in H34, H92. rewrite H34.
+        cbn [app tok_gen]. rewrite H92, H34.
+        assert (Hs' : safe r = true) by (cbn [safe] in Hs; rewrite H92 in Hs; exact Hs).
+        destruct (IH r ltac:(lia) Hs' s (c :: cur) acc [c]) as [l' ->]. exists l'.
+        cbn [rev]. rewrite <- app_assoc. reflexivity.
+Qed.
+
+Lemma tok_one_opt n v : Forall plain n -> safe v = true -> forall s cur acc last,
+  exists last', tok (print_opt ossh_escape (n, v) ++ s) false false cur acc last =
                 tok s false false (rev (raw_opt (n, v)) ++ cur) acc last'.
 Proof.
-  intros Hn s cur acc last. unfold print_opt, raw_opt. cbn [fst snd].
+  intros Hn Hv s cur acc last. unfold print_opt, raw_opt. cbn [fst snd].
   rewrite <- app_assoc.
-  destruct (tok_plain n Hn ((61 :: 34 :: escape v ++ [34]) ++ s) cur acc last) as [l1 ->].
-  cbn [app tok]. change (61 =? 92) with false. change (61 =? 34) with false.
+  destruct (tok_plain n Hn ((61 :: 34 :: ossh_escape v ++ [34]) ++ s) cur acc last) as [l1 ->].
+  unfold tok. cbn [app tok_gen]. change (61 =? 92) with false. change (61 =? 34) with false.
   change ((61 =? 32) || (61 =? 9)) with false. change (61 =? 44) with false.
   change (34 =? 92) with false. change (34 =? 34) with true. cbn [negb].
   rewrite <- app_assoc. cbn [app].
-  destruct (tok_quoted v s (61 :: rev n ++ cur) acc [34]) as [l2 ->]. exists l2.
+  destruct (tok_quoted_safe (length v) v (le_n _) Hv s (61 :: rev n ++ cur) acc [34]) as [l2 Hq].
+  unfold tok in Hq. rewrite Hq. exists l2.
   rewrite rev_app_distr. cbn [rev]. rewrite <- !app_assoc. reflexivity.
 Qed.
 
 Lemma tok_opts rest : forall opts acc last,
-  opts <> [] -> Forall (fun nv => Forall plain (fst nv)) opts ->
+  opts <> [] -> Forall (fun nv => Forall plain (fst nv)) opts -> Forall (fun nv => safe (snd nv) = true) opts ->
   exists acc' cur',
-    tok (print_opts escape opts ++ 32 :: rest) false false [] acc last = (acc', cur', false, false, 32 :: rest) /\
+    tok (print_opts ossh_escape opts ++ 32 :: rest) false false [] acc last = (acc', cur', false, false, 32 :: rest) /\
     rev (rev cur' :: acc') = rev acc ++ map raw_opt opts.
 Proof.
-  induction opts as [|[n v] r IH]; intros acc last Hne Hp; [congruence|].
+  induction opts as [|[n v] r IH]; intros acc last Hne Hp Hs; [congruence|].
   inversion Hp as [|? ? Hn Hr]; subst. cbn [fst] in Hn.
+  inversion Hs as [|? ? Hv Hsr]; subst. cbn [snd] in Hv.
   destruct r as [|o2 r].
   - cbn [print_opts].
-    destruct (tok_one_opt n v Hn (32 :: rest) [] acc last) as [l' ->].
-    cbn [tok]. change (32 =? 92) with false. change (32 =? 34) with false. change (32 =? 32) with true. cbn [orb].
+    destruct (tok_one_opt n v Hn Hv (32 :: rest) [] acc last) as [l' ->].
+    unfold tok. cbn [tok_gen]. change (32 =? 92) with false. change (32 =? 34) with false. change (32 =? 32) with true. cbn [orb].
     eexists _, _. split; [reflexivity|].
     rewrite app_nil_r, rev_involutive. cbn [rev map]. reflexivity.
-  - change (print_opts escape ((n, v) :: o2 :: r)) with (print_opt escape (n, v) ++ 44 :: print_opts escape (o2 :: r)).
+  - change (print_opts ossh_escape ((n, v) :: o2 :: r)) with (print_opt ossh_escape (n, v) ++ 44 :: print_opts ossh_escape (o2 :: r)).
     rewrite <- app_assoc.
-    destruct (tok_one_opt n v Hn ((44 :: print_opts escape (o2 :: r)) ++ 32 :: rest) [] acc last) as [l' ->].
-    cbn [app tok]. change (44 =? 92) with false. change (44 =? 34) with false.
+    destruct (tok_one_opt n v Hn Hv ((44 :: print_opts ossh_escape (o2 :: r)) ++ 32 :: rest) [] acc last) as [l' ->].
+    unfold tok. cbn [app tok_gen]. change (44 =? 92) with false. change (44 =? 34) with false.
     change ((44 =? 32) || (44 =? 9)) with false. change (44 =? 44) with true.
     rewrite app_nil_r, rev_involutive.
-    destruct (IH (raw_opt (n, v) :: acc) [44]) as (acc' & cur' & Htok & Hrev); [discriminate|exact Hr|].
+    destruct (IH (raw_opt (n, v) :: acc) [44]) as (acc' & cur' & Htok & Hrev); [discriminate|exact Hr|exact Hsr|].
     exists acc', cur'. split; [exact Htok|]. rewrite Hrev. cbn [rev map]. rewrite <- app_assoc. reflexivity.
 Qed.
 
-(* Round trip: a non-empty list of name="value" options printed with the tokenizer's escaping,
-   followed by a blank and the rest of the line, is tokenized back to exactly those name=value
-   strings (for every value text whatsoever) and the stripped rest. *)
-Theorem tokenize_print opts rest :
-  opts <> [] -> Forall (fun nv => Forall plain (fst nv)) opts ->
-  tokenize (print_opts escape opts ++ 32 :: rest) = Some (map raw_opt opts, strip (32 :: rest)).
-Proof.
-  intros Hne Hp. unfold tokenize.
-  destruct (tok_opts rest opts [] [] Hne Hp) as (acc' & cur' & -> & Hrev).
-  cbn [orb]. rewrite Hrev. reflexivity.
-Qed.
-
-Lemma ossh_escape_no_backslash v : ~ In 92 v -> ossh_escape v = escape v.
-Proof.
-  induction v as [|c v IH]; intros H; [reflexivity|]. cbn [ossh_escape escape].
-  assert (c <> 92) by (intros ->; apply H; left; reflexivity).
-  apply Z.eqb_neq in H0. rewrite H0. cbn [orb]. rewrite IH; [reflexivity|].
-  intros Hin. apply H. right. exact Hin.
-Qed.
-
-Lemma print_opts_ext (f g : text -> text) opts :
-  Forall (fun nv => f (snd nv) = g (snd nv)) opts -> print_opts f opts = print_opts g opts.
-Proof.
-  induction 1 as [|[n v] r H _ IH]; [reflexivity|]. cbn [snd] in H.
-  destruct r; cbn [print_opts]; unfold print_opt; cbn [fst snd]; rewrite H; [reflexivity|].
-  f_equal. f_equal. f_equal. exact IH.
-Qed.
-
-(* With the quoting OpenSSH documents (only backslash-quote is an escape) the round trip holds for values that
-   contain no backslash ... *)
-Theorem tokenize_ossh_partial opts rest :
-  opts <> [] -> Forall (fun nv => Forall plain (fst nv)) opts ->
-  Forall (fun nv => ~ In 92 (snd nv)) opts ->
+(* Round trip with the quoting OpenSSH documents (the value in double quotes, embedded double quotes
+   written backslash-quote, nothing else escaped): a non-empty list of options, followed by a blank and
+   the rest of the line, is tokenized back to exactly those name=value strings - backslashes in the
+   values included - provided no backslash of a value stands directly in front of a double quote. *)
+Theorem tokenize_ossh opts rest :
+  opts <> [] -> Forall (fun nv => Forall plain (fst nv)) opts -> Forall (fun nv => safe (snd nv) = true) opts ->
   tokenize (print_opts ossh_escape opts ++ 32 :: rest) = Some (map raw_opt opts, strip (32 :: rest)).
 Proof.
-  intros Hne Hp Hb. rewrite (print_opts_ext ossh_escape escape).
-  - apply tokenize_print; assumption.
-  - eapply Forall_impl; [|exact Hb]. intros nv. apply ossh_escape_no_backslash.
+  intros Hne Hp Hs. unfold tokenize, tokenize_gen.
+  destruct (tok_opts rest opts [] [] Hne Hp Hs) as (acc' & cur' & Htok & Hrev).
+  unfold tok in Htok. rewrite Htok. cbn [orb]. rewrite Hrev. reflexivity.
 Qed.
 
-(* ... and fails for a value with a backslash: the option x with the quoted value a-backslash-b is tokenized to x=ab. *)
-Theorem tokenize_ossh_backslash_lost :
+(* The remaining gap: a value with a backslash directly in front of a double quote (a, backslash,
+   quote, b - OpenSSH reads its quoted form back to exactly that value) is not tokenized back. *)
+Theorem tokenize_ossh_backslash_quote_lost :
   exists n v rest, Forall plain n /\
     tokenize (print_opts ossh_escape [(n, v)] ++ 32 :: rest) <> Some ([raw_opt (n, v)], strip (32 :: rest)).
 Proof.
-  exists [120], [97; 92; 98], [107]. split.
+  exists [120], [97; 92; 34; 98], [107]. split.
   - constructor; [|constructor]. unfold plain. lia.
+  - vm_compute. discriminate.
+Qed.
+
+(* Before repair 2e10b73 ([tokenize_old]) every backslash was dropped: the option x with the quoted
+   value a-backslash-b was tokenized to x=ab. *)
+Theorem tokenize_old_backslash_lost :
+  exists n v rest, Forall plain n /\ safe v = true /\
+    tokenize_old (print_opts ossh_escape [(n, v)] ++ 32 :: rest) <> Some ([raw_opt (n, v)], strip (32 :: rest)).
+Proof.
+  exists [120], [97; 92; 98], [107]. split; [|split].
+  - constructor; [|constructor]. unfold plain. lia.
+  - reflexivity.
   - vm_compute. discriminate.
 Qed.
 
@@ -165,8 +175,9 @@ Theorem from_repeats_accumulate m l v :
   opt_get m n_from = Some (VFrom l) ->
   add_option true m (n_from ++ 61 :: v) = Some (opt_set m n_from (VFrom (l ++ [v]))).
 Proof.
-  intros H. unfold add_option. change (starts_with 61 (n_from ++ 61 :: v)) with false.
+  intros H. unfold add_option, add_option_gen. change (starts_with 61 (n_from ++ 61 :: v)) with false. cbv iota.
   rewrite split_first_name by (vm_compute; intuition discriminate).
+  change (lower n_from) with n_from. cbv zeta.
   change (zlist_eqb n_from n_command) with false. change (zlist_eqb n_from n_environment) with false.
   change (zlist_eqb n_from n_from) with true. cbn [andb]. rewrite H. reflexivity.
 Qed.
@@ -175,12 +186,73 @@ Theorem principals_repeats_accumulate m l v :
   opt_get m n_principals = Some (VPrinc l) ->
   add_option true m (n_principals ++ 61 :: v) = Some (opt_set m n_principals (VPrinc (l ++ [v]))).
 Proof.
-  intros H. unfold add_option. change (starts_with 61 (n_principals ++ 61 :: v)) with false.
+  intros H. unfold add_option, add_option_gen. change (starts_with 61 (n_principals ++ 61 :: v)) with false. cbv iota.
   rewrite split_first_name by (vm_compute; intuition discriminate).
+  change (lower n_principals) with n_principals. cbv zeta.
   change (zlist_eqb n_principals n_command) with false. change (zlist_eqb n_principals n_environment) with false.
   change (zlist_eqb n_principals n_from) with false. change (zlist_eqb n_principals n_permitopen) with false.
   change (zlist_eqb n_principals n_principals) with true. cbn [andb]. rewrite H. reflexivity.
 Qed.
+
+(* ================================================================================================ *)
+(* Option keywords are case-insensitive                                                              *)
+
+Lemma lower_char_not_eq c : c <> 61 -> (if (65 <=? c) && (c <=? 90) then c + 32 else c) <> 61.
+Proof. intros H. destruct ((65 <=? c) && (c <=? 90)) eqn:E; [lia|exact H]. Qed.
+
+Lemma lower_no_eq n : ~ In 61 n -> ~ In 61 (lower n).
+Proof.
+  unfold lower. intros H Hin. apply in_map_iff in Hin as (c & Hc & Hin).
+  assert (c <> 61) by (intros ->; exact (H Hin)). apply (lower_char_not_eq c H0). exact Hc.
+Qed.
+
+Lemma lower_idem n : lower (lower n) = lower n.
+Proof.
+  unfold lower. rewrite map_map. apply map_ext. intros c.
+  destruct ((65 <=? c) && (c <=? 90)) eqn:E; [|rewrite E; reflexivity].
+  assert (((65 <=? c + 32) && (c + 32 <=? 90)) = false) by lia. rewrite H. reflexivity.
+Qed.
+
+Lemma starts_with_lower n s : ~ In 61 n -> starts_with 61 (lower n ++ s) = starts_with 61 (n ++ s).
+Proof.
+  destruct n as [|c r]; [reflexivity|]. intros H. cbn [lower map app starts_with].
+  assert (Hc : c <> 61) by (intros ->; apply H; left; reflexivity).
+  pose proof (lower_char_not_eq c Hc) as Hl. apply Z.eqb_neq in Hc, Hl. rewrite Hc, Hl. reflexivity.
+Qed.
+
+Lemma split_first_none f : ~ In 61 f -> split_first 61 f = None.
+Proof.
+  induction f as [|c r IH]; intros H; [reflexivity|]. cbn [split_first].
+  assert (c <> 61) by (intros ->; apply H; left; reflexivity). apply Z.eqb_neq in H0. rewrite H0.
+  rewrite IH; [reflexivity|]. intros Hin. apply H. right. exact Hin.
+Qed.
+
+(* name=value: the keyword is used in lower case, however it was written *)
+Theorem keyword_case_insensitive h m name v :
+  ~ In 61 name -> add_option h m (name ++ 61 :: v) = add_option h m (lower name ++ 61 :: v).
+Proof.
+  intros Hn. unfold add_option, add_option_gen.
+  rewrite (starts_with_lower name (61 :: v) Hn).
+  rewrite !split_first_name by (assumption || apply lower_no_eq; assumption).
+  rewrite lower_idem. reflexivity.
+Qed.
+
+(* flags likewise *)
+Theorem flag_case_insensitive h m f :
+  ~ In 61 f -> add_option h m f = add_option h m (lower f).
+Proof.
+  intros Hn. unfold add_option, add_option_gen.
+  pose proof (starts_with_lower f [] Hn) as Hs. rewrite !app_nil_r in Hs. rewrite Hs.
+  rewrite !split_first_none by (assumption || apply lower_no_eq; assumption).
+  rewrite lower_idem. reflexivity.
+Qed.
+
+(* Before repair c342bf5 ([add_option_old]): FROM=x was filed under the unknown keyword FROM and no
+   from restriction was recorded. *)
+Theorem keyword_case_old_ignored :
+  exists m, add_option_old true [] [70; 82; 79; 77; 61; 120] = Some m /\ opt_get m n_from = None /\
+            exists m', add_option true [] [70; 82; 79; 77; 61; 120] = Some m' /\ opt_get m' n_from = Some (VFrom [[120]]).
+Proof. eexists. split; [vm_compute; reflexivity|]. split; [reflexivity|]. eexists. split; vm_compute; reflexivity. Qed.
 
 (* ================================================================================================ *)
 (* All options are required to match                                                                 *)
@@ -302,7 +374,21 @@ Proof.
   rewrite Hk, Hp, Hr. reflexivity.
 Qed.
 
-(* a key field on which the importer raises makes the whole file fail *)
+(* with an importer that only ever fails with KeyImportError: any line whose key field is not a key *)
+Theorem ak_not_a_key_line_skipped x line m rest :
+  importer_total x ->
+  line <> [] -> strip line = line -> hd 0 line <> 35 ->
+  (forall id, keyof x line <> KOk id) -> parse_options true line = Some (m, rest) ->
+  (forall id, keyof x rest <> KOk id) ->
+  ak_parse_line x line = ALSkip.
+Proof.
+  intros Ht Hne Hs H35 Hk Hp Hr.
+  apply (ak_unparsable_key_line_skipped x line m rest); try assumption; apply not_key_is_bad; assumption.
+Qed.
+
+(* A key importer that raises something other than KeyImportError (as the one before repair e01fa70
+   did on impossible key parameters; [wit_ext] does on the field R) makes the whole file fail: this
+   is why the theorems above carry [importer_total] or a KBad premise. *)
 Theorem ak_raising_key_breaks_file :
   exists x l1 bad l2, ak_load_from_lines x (l1 ++ l2) <> None /\ ak_load_from_lines x (l1 ++ bad :: l2) = None.
 Proof.
